@@ -76,21 +76,27 @@ def crc_term(eng, c):
     import zlib
 
     items = c.items
-    if all(isinstance(x, int) and not isinstance(x, bool) for x in items):
-        return zlib.crc32(bytes(items)) & 0xFFFFFFFF
+    concrete = all(isinstance(x, int) and not isinstance(x, bool) for x in items)
     key = tuple(_ikey(x) for x in items)
     reg = eng.__dict__.setdefault("crc_reg", {})
     if key not in reg:
-        if eng.intmode == "bv":
+        if concrete:
+            kval = zlib.crc32(bytes(items)) & 0xFFFFFFFF
+            sym = z3.BitVecVal(kval, 32) if eng.intmode == "bv" else z3.IntVal(kval)
+        elif eng.intmode == "bv":
             sym = z3.BitVec("crc!%d" % len(reg), 32)
         else:
             sym = z3.Int("crc!%d" % len(reg))
             eng.add_axiom(z3.And(sym >= 0, sym < 2 ** 32))
             eng.ranges["crc!%d" % len(reg)] = (0, 2 ** 32 - 1)
-        for k2, (sym2, items2) in reg.items():
+        for k2, (sym2, items2, conc2) in reg.items():
+            if concrete and conc2:
+                continue
             same = _seq_eq(eng, items, items2) if len(items) == len(items2) else False
             eng.add_axiom((sym == sym2) == (same if is_sym(same) else z3.BoolVal(same)))
-        reg[key] = (sym, list(items))
+        reg[key] = (sym, list(items), concrete)
+    if concrete:
+        return zlib.crc32(bytes(items)) & 0xFFFFFFFF
     h = reg[key][0]
     if eng.intmode == "bv":
         return eng._rec(z3.ZeroExt(eng.W - 32, h), 32)
@@ -145,7 +151,7 @@ def compare(eng, t, a, b):
             return compare(eng, t, lift_seq(eng, a), b)
         if not is_sym(a) and not is_sym(b):
             return t is ast.NotEq
-    if isinstance(a, Rope) or isinstance(b, Rope):
+    if (isinstance(a, Rope) or isinstance(b, Rope)) and t in (ast.Eq, ast.NotEq) and a is not None and b is not None:
         from vf.pysym import ropes
 
         return ropes.compare(eng, t, a, b)
